@@ -227,9 +227,25 @@ def _chunk(texts):
                 fails.append(("validated:reference-can-execute", {"document": text, "exc": type(e).__name__},
                               "validation accepts a document the specification's execution algorithm cannot run: %r" % (e,)))
                 continue
-            if exp[0] == "result" and exp[3].ambiguous:
-                fails.append(("validated:one-unambiguous-value-per-response-key", {"document": text, "operation": name, "paths": [list(p) for p in exp[3].ambiguous][:3]},
-                              "validation accepts the document although response key %r merges different fields / arguments" % (exp[3].ambiguous[0],)))
+            # "any resolver results of the declared types": a top-level field of an abstract type may resolve to ANY of its possible types - each is tried,
+            # since which selections merge under one response key depends on the runtime type
+            exps = [exp]
+            try:
+                from py_gql.schema import InterfaceType, NonNullType, UnionType
+                root_t = {"query": schema.query_type, "mutation": schema.mutation_type}.get(op.operation)
+                for sel in op.selection_set.selections:
+                    fd = root_t.field_map.get(sel.name.value) if isinstance(sel, A.Field) and root_t is not None else None
+                    ft = fd.type.type if fd is not None and isinstance(fd.type, NonNullType) else getattr(fd, "type", None)
+                    if isinstance(ft, (InterfaceType, UnionType)):
+                        key = sel.alias.value if sel.alias else sel.name.value
+                        for pt in schema.get_possible_types(ft):
+                            exps.append(H.reference(schema, text, {}, {(key,): ("value", {"__typename__": pt.name})}, name))
+            except Exception:
+                pass
+            amb = next((e for e in exps if e[0] == "result" and e[3].ambiguous), None)
+            if amb is not None:
+                fails.append(("validated:one-unambiguous-value-per-response-key", {"document": text, "operation": name, "paths": [list(p) for p in amb[3].ambiguous][:3]},
+                              "validation accepts the document although response key %r merges different fields / arguments" % (amb[3].ambiguous[0],)))
             got = H.run_request(schema, text, {}, {}, "blocking-executor", operation_name=name)
             if got["outcome"] == "exception":
                 fails.append(("validated:execution-never-raises-internally", {"document": text, "operation": name, "exc": type(got["exc"]).__name__},
